@@ -274,9 +274,8 @@ func (j *raceJob) finish(r *core.Run) {
 	<-j.done
 	r.Begin("v1race:"+j.line, true, "mode:v1-race")
 	// in-process, without the race detector: every key returned must still be complete and correct
-	out := r.Impl(j.line)
-	r.Check(strings.HasPrefix(out, "ok "), "v1-concurrent-read",
-		fmt.Sprintf("shared v1 key store (cache size %d, %d goroutines, %d clients) returned a wrong or incomplete key under concurrency: %s", raceCacheSize, raceGoroutines, raceClients, out))
+	out := r.ImplIsolated(j.line, 120*time.Second)
+	judgeV1(r, out, raceCacheSize)
 	info := map[string]any{"mode": j.mode, "op": j.line, "build_s": round1(j.buildS), "run_s": round1(j.runS)}
 	if j.mode != "race-detector" {
 		r.Tag("v1race:fallback-probabilistic")
